@@ -800,7 +800,11 @@ fn rvalue_json<'tcx>(d: &mut Dumper<'tcx>, n: &Node<'tcx>, env: TypingEnv<'tcx>,
             ("b", operand_json(d, n, env, body, &ops.1)),
         ]),
         Rvalue::UnaryOp(uop, op) => J::obj(vec![("k", J::s("unop")), ("op", J::s(&format!("{:?}", uop))), ("a", operand_json(d, n, env, body, op))]),
-        Rvalue::Discriminant(p) => J::obj(vec![("k", J::s("discr")), ("place", place_json(tcx, body, n, env, p))]),
+        Rvalue::Discriminant(p) => {
+            let pt = p.ty(body, tcx).ty;
+            let pt = match n.inst.try_instantiate_mir_and_normalize_erasing_regions(tcx, env, EarlyBinder::bind(pt)) { Ok(t) => t, Err(_) => pt };
+            J::obj(vec![("k", J::s("discr")), ("place", place_json(tcx, body, n, env, p)), ("ty", J::s(&format!("{}", pt))), ("adt", adt_path(tcx, pt))])
+        }
         Rvalue::Aggregate(kind, ops) => {
             let mut fields: Vec<(&str, J)> = vec![("k", J::s("agg"))];
             match &**kind {
